@@ -40,6 +40,11 @@ FLAVOUR = {
    B. MAINTENANCE REFACTOR: de-duplicate or modernise without intending any behaviour change - merge the WSGI and ASGI copies of something into a shared helper, extract a method, turn a loop into a comprehension / generator / itertools call, replace manual parsing by a library call (or the reverse), introduce a dataclass / NamedTuple / __slots__, switch os.path to pathlib, flatten nested ifs, reorder branches, rename and re-route arguments - and lose a subtle detail on the way (an edge value, an evaluation order, laziness, an identity, a default, an exception type).
    C. CONCURRENCY / RE-ENTRANCY: per-request data is kept somewhere that is shared - on the application, router, response or middleware OBJECT, in a module global, a class attribute, a default argument, a cache keyed too coarsely, a reused buffer - or a critical section is widened / narrowed, so that two requests in flight at once (threads under WSGI, tasks under ASGI), or a second use that starts before the first one has finished, disturb each other. A single request at a time must keep working.
  Ordinary everyday use must keep working - do NOT make a change that the first simple request would expose.""",
+ 12: """This round: make one change of each of these three kinds, each written the way such a commit really looks (a short rationale in a comment or docstring):
+   A. OVER-CORRECTING BUGFIX: imagine a plausible user bug report about an edge case of this code ("X is wrong when ...") and fix it - but the fix is too broad or too eager and now breaks the property for a NEIGHBOURING class of legal inputs that worked before (the reported case itself may really be handled better now).
+   B. COMPATIBILITY / DEPRECATION work: replace an API that is deprecated or behaves differently across Python versions or platforms (datetime.utcnow / utcfromtimestamp, asyncio.get_event_loop / ensure_future / wait_for, cgi / email / urllib helpers, os.path vs pathlib, locale-dependent functions, typing changes, `str.removeprefix`, dict-order assumptions, Windows path separators / case-insensitive file systems, `time.time()` vs monotonic clocks) by its modern or portable equivalent - which is subtly not equivalent for some legal input the property covers.
+   C. API ERGONOMICS: make the public API friendlier - accept more input types (coerce with str() / int() / bytes()), add a sensible-looking default, return a richer object, normalise or pretty-print output (sorted keys, canonical case, trimmed whitespace, stable ordering), make a method idempotent or chainable, add `__eq__`/`__hash__`/`__repr__`/`__bool__`/`__len__` - and thereby change what existing legal callers observe in a specific situation.
+ Ordinary everyday use must keep working - do NOT make a change that the first simple request would expose.""",
  5: """This round is about interactions; make three changes, each of which needs TWO things at once to show (neither alone exposes it): e.g. a feature used through a second public entry point, inside a mount or middleware, on the second use of an object, with a particular header present, with a particular chunking AND a particular content, on one interface only AND only for one method. Ordinary everyday use must keep working - do NOT make a change that the first simple request would expose.""",
 }
 
